@@ -94,7 +94,16 @@ func MustLeaf(t *ref.T, tracked bool) tensor.Tensor {
 }
 
 // Read copies a real tensor out through Shape and At (one At per element).
-func Read(t tensor.Tensor) (*ref.T, error) {
+func Read(t tensor.Tensor) (o *ref.T, err error) {
+	defer func() { // a tensor whose internal state is inconsistent makes Shape/At panic: report it as unreadable
+		if r := recover(); r != nil {
+			o, err = nil, fmt.Errorf("tensor is unreadable: Shape()/At() panicked: %v", r)
+		}
+	}()
+	return read(t)
+}
+
+func read(t tensor.Tensor) (*ref.T, error) {
 	shape := t.Shape()
 	for _, d := range shape {
 		if d <= 0 {
